@@ -19,18 +19,21 @@ import sqlite3
 import vlib
 
 MANIFEST = dict(
-    text="Machine-checked (Coq 8.16, axiom-free) refinement between a statement-level model of parsing/sqlite.py (ten tables as lists with the "
-         "UNIQUE / NOT NULL / FOREIGN KEY constraints of sqlite_db_pragmas.py, every public function as the sequence of statements it issues, "
-         "ADSORBATE_LIST/MATERIAL_LIST as state, with_connection as one transaction) and a plain dictionary model: per operation the outcome class "
-         "and the abstraction of the tables equal the dictionary's prediction, a refused operation leaves the file unchanged, a deletion removes "
-         "exactly that item, and by induction over ARBITRARY histories over several files. The model is hand-written; it is tied to the code on "
-         "every run by executing it inside Coq against the implementation on random histories (outcome, statement count, every table row, "
-         "counters, registries, retrieval results after every call). Partial: isotherm uploads with auto-insert need the registry to agree with "
-         "the target file (refuted otherwise: registries are per process and survive a rollback); values changed by REAL column affinity, the "
-         "iso_type column leaking into retrieved isotherms and the missing isotherm_properties_type table are refuted items, not covered.",
+    text="Machine-checked (Coq 8.16, axiom-free) theorems about a statement-level model of parsing/sqlite.py (ten tables as lists with the UNIQUE / "
+         "NOT NULL / FOREIGN KEY constraints of sqlite_db_pragmas.py, every public function as the sequence of statements it issues, "
+         "ADSORBATE_LIST/MATERIAL_LIST as state, with_connection as one transaction) and a plain dictionary model: a refused operation leaves the "
+         "file unchanged (all operations, all contents); retrievals change nothing; isotherm deletion refines the dictionary's delete (absent -> "
+         "parsing error, present -> exactly that item disappears); outcome and content afterwards depend on the target file only, and by induction "
+         "over ARBITRARY histories over several files the final content of a file is what its own operations produce on it alone - for every "
+         "operation except isotherm uploads with auto-insert, which read the per-process registries (refuted witnesses: cross-file upload, "
+         "numeric-looking text through REAL affinity, iso_type leaking into retrieved isotherms, missing isotherm_properties_type table, list-valued "
+         "material properties). PARTIAL: the refinement tables -> dictionary for uploads / overwrites / adsorbate, material and type deletions is "
+         "not proved; it is evaluated inside Coq (dictionary model vs abstraction of the tables) on every step of every history of the run. The "
+         "hand-written model is tied to the code on every run by executing it inside Coq against the implementation on random histories (outcome, "
+         "statement count, every table row, counters, registries, retrieval results after every call).",
     note="Trusted: Coq kernel; SQLite/sqlite3 behaving as the constraint model says (validated by the table-level comparison after every call); "
          "the harness (interning of strings/numbers to integers, independent dump connection); isotherm construction / iso_id (C05) as oracle.",
-    technique="Coq refinement proof (tables+statements -> dictionary, induction over histories) + model executed in Coq against real histories")
+    technique="Coq proofs over a statement-tree model (induction over programs and histories) + dictionary model and table model executed in Coq against real histories")
 
 HEADER = """From Coq Require Import ZArith List Bool.
 From PG Require Import Db.DbModel Db.DbSpec Db.DbShow.
@@ -544,7 +547,7 @@ def classify(op, kind, ctx):
 # ------------------------------------------------------------------ one campaign
 def explore(rep, tier, seed, nh=None, maxlen=None):
     rnd = random.Random(seed)
-    nh = nh or (1500 if tier == 'thorough' else 160)
+    nh = nh or (1500 if tier == "thorough" else 110)
     maxlen = maxlen or (45 if tier == 'thorough' else 22)
     work = os.path.join(vlib.SCRATCH, 'c08_%d' % os.getpid())
     im = Impl(work)
@@ -757,7 +760,7 @@ def run(rep, tier, seed):
     rep.cov['trusted_base'] += ['SQLite / python sqlite3 (constraint enforcement, AUTOINCREMENT, transactions): modelled, compared row by row on every call',
                                 'harness interning of strings and numbers; isotherm construction and iso_id (hash) are oracles']
     rep.assumptions += ['values are interned: numbers by their float value (3 and 3.0 are the same stored value)',
-                        'theorem history_refines_partial needs the registries to agree with the target file for auto-inserting isotherm uploads']
+                        'theorems outcome_depends_on_target_file_only_partial / history_files_independent_partial exclude auto-inserting isotherm uploads (they read the registries)', 'refinement to the dictionary is proved for isotherm deletion and retrievals; for the other operations it is checked per step inside Coq at run time']
 
 
 def replay(d):
